@@ -32,7 +32,8 @@ def tree_strategy():
     tree = st.recursive(leaf, node, max_leaves=10)
     root = st.fixed_dictionaries({"kind": st.just("dir"), "name": st.sampled_from(SMALL + ["root", "a.b"]), "mode": st.sampled_from([0o755, 0o700, 0o750]),
                                   "mtime_ns": mtime, "children": st.lists(tree, min_size=0, max_size=4, unique_by=lambda c: c["name"])})
-    link = st.fixed_dictionaries({"at": st.integers(0, 50), "to": st.integers(0, 50), "name": st.sampled_from(["l", "m", "lnk", "a", "z"])})
+    link = st.fixed_dictionaries({"at": st.integers(0, 50), "to": st.integers(0, 50), "name": st.sampled_from(["l", "m", "lnk", "a", "z"]),
+                                  "to_link": st.one_of(st.none(), st.none(), st.integers(0, 3))})
     return st.fixed_dictionaries({
         "root": root, "links": st.lists(link, max_size=3),
         "arcname": st.sampled_from([None, None, "given", "x/y"]),
@@ -75,6 +76,13 @@ def place_links(case):
         tpath, tnode = nodes[L["to"] % len(nodes)]
         lp = d + (L["name"],)
         if lp in used:
+            continue
+        if L.get("to_link") is not None and out and not case["dereference"]:
+            # a link whose target is an earlier link (kept verbatim: the chain must survive, not be collapsed to the final target)
+            tpath = out[L["to_link"] % len(out)][0]
+            text = relpath_text(d, tpath)
+            used.add(lp)
+            out.append((lp, text, tpath, "link"))
             continue
         if tpath == lp[:len(tpath)] and case["dereference"]:
             continue  # link to an ancestor: no finite image under dereference
@@ -222,6 +230,18 @@ class C02(Check):
                         {"kind": "file", "name": "f", "data": ["hex", "31"], "mode": 0o644, "mtime_ns": 10 ** 18}]}
                     yield {"root": {"kind": "dir", "name": "root", "mode": 0o755, "mtime_ns": 10 ** 18, "children": [e, f]}, "links": [], "arcname": None,
                            "dereference": False, "password": None, "entry": entry, "source": "absolute", "block": None, "cwd": "inside", "cwd_at": at}
+        # a chain of links: latest -> current -> data.txt, and a link through a directory link
+        for src in ("relative", "absolute"):
+            for entry in ("writeall", "shutil"):
+                i += 1
+                if env.mine(i):
+                    data = {"kind": "file", "name": "data.txt", "data": ["hex", "64617461"], "mode": 0o644, "mtime_ns": 10 ** 18}
+                    sub = {"kind": "dir", "name": "sub", "mode": 0o755, "mtime_ns": 10 ** 18, "children": [
+                        {"kind": "file", "name": "inner", "data": ["hex", "69"], "mode": 0o600, "mtime_ns": 10 ** 18}]}
+                    yield {"root": {"kind": "dir", "name": "root", "mode": 0o755, "mtime_ns": 10 ** 18, "children": [data, sub]},
+                           "links": [{"at": 0, "to": 1, "name": "current", "to_link": None}, {"at": 0, "to": 1, "name": "latest", "to_link": 0},
+                                     {"at": 1, "to": 1, "name": "up", "to_link": 1}],
+                           "arcname": None, "dereference": False, "password": None, "entry": entry, "source": src, "block": None}
         # a file larger than the writer's real I/O block (1 MiB), with and without a password
         for pw in (None, "pw"):
             i += 1
